@@ -6,97 +6,97 @@ HERE = os.path.dirname(os.path.dirname(os.path.abspath(__file__)))
 CHECKS = {
  "C01": dict(
     technique="runtime monitoring: real generators vs reference object enumerators; exact model sets by truth table through decoded variable names; sampled witnesses/near misses beyond the cap",
-    text="Exploration: php (all m,n<=4 x functional x onto), graph php and subset cardinality on every bipartite graph with sides <= 3, binary php, relativized php (m,t,n<=3), counting, perfect matching on every graph with <= 5 vertices, clique-colouring, each under CNF and OPB classes and with cnfgen and networkx graph objects, decided over all 2^n assignments (n <= 18 quick / 22 thorough): models(F) == set of documented objects, hence satisfiable iff an object exists and one model per object.  Larger instances: random objects must satisfy, one-condition-broken near misses must falsify.  Also: binary php with 2^16..2^18 holes on sampled placements (clauses grouped by variable set), networkx bipartite inputs whose right side was inserted first / interleaved and whose edges are listed right-to-left, and a state-leak adversary (vmon/pollute.py) that edits every graph the library's factories hand out before each case.",
+    text="Exploration: php (all m,n<=4 x functional x onto), graph php and subset cardinality on every bipartite graph with sides <= 3, binary php, relativized php (m,t,n<=3), counting, perfect matching on every graph with <= 5 vertices, clique-colouring, each under CNF and OPB classes and with cnfgen and networkx graph objects, decided over all 2^n assignments (n <= 18 quick / 22 thorough): models(F) == set of documented objects, hence satisfiable iff an object exists and one model per object.  Larger instances: random objects must satisfy, one-condition-broken near misses must falsify.  Also: binary php with 2^16..2^18 holes on sampled placements (clauses grouped by variable set), networkx bipartite inputs whose right side was inserted first / interleaved and whose edges are listed right-to-left, and a state-leak adversary (vmon/pollute.py) that edits every graph the library's factories hand out before each case.  Graph arguments also as objects of a user's own subclass with computed edges (vmon/ducks.py); graph histories include insertion batches refused half-way.",
     note="Trusts vmon/tt.py and the object enumerators written from the docstrings (cross-checked against closed forms such as 'php unsat iff m>n').  Atoms are read from the variable names the formula reports.",
     design="5/C01"),
  "C02": dict(
     technique="runtime monitoring: real generators vs brute-force graph algorithms; exact (projected) model sets by truth table, model counts vs witness counts",
-    text="Exploration: Tseitin (every charge vector incl. short/long/non-boolean), k-colouring, even colouring, dominating set (both encodings, projection on the set variables), tiling, isomorphism/automorphism, (induced) subgraph, clique (unary and binary, +-symmetry breaking), Ramsey witness, on every simple graph with <= 4 vertices and seeded 5/6-vertex graphs, CNF and OPB, cnfgen and networkx inputs; model set compared object by object with brute-force witnesses (so counts such as 2^(|E|-|V|+c) and #isomorphisms are implied and the Tseitin closed form is asserted).  Also: Tseitin charges as tuple / iterator / generator; families called again on one Graph object after degree-preserving edge switches and edge removals; the state-leak adversary before each case.",
+    text="Exploration: Tseitin (every charge vector incl. short/long/non-boolean), k-colouring, even colouring, dominating set (both encodings, projection on the set variables), tiling, isomorphism/automorphism, (induced) subgraph, clique (unary and binary, +-symmetry breaking), Ramsey witness, on every simple graph with <= 4 vertices and seeded 5/6-vertex graphs, CNF and OPB, cnfgen and networkx inputs; model set compared object by object with brute-force witnesses (so counts such as 2^(|E|-|V|+c) and #isomorphisms are implied and the Tseitin closed form is asserted).  Also: Tseitin charges as tuple / iterator / generator; families called again on one Graph object after degree-preserving edge switches and edge removals; the state-leak adversary before each case.  Graph arguments also as user-subclass objects with computed edges; histories include refused batches and removals of non-edges with non-vertex endpoints.",
     note="Trusts vmon/tt.py and the brute-force algorithms in C02.py.",
     design="5/C02"),
  "C03": dict(
     technique="runtime monitoring: truth-table unsatisfiability / colouring enumeration under the cap plus clause-set comparison with independent named-atom axiom generators at every size",
-    text="Exploration: ordering principles (5 variants x plant) for N<=5 and on every graph with <= 4 vertices, pebbling on every DAG with <= 5 vertices, stone / sparse stone formulas, CPLS, Pitfall under several RNG states, Ramsey numbers, van der Waerden (2-3 colours, lengths 1..4), Pythagorean triples: exact unsatisfiability or model-set equality with enumerated orders/colourings; clauses as sets of named literals equal to a reference axiom generator, also at large sizes (op 12, pyramids, cpls 4 4 4, ptn 200).  Also: OrderingPrinciple(257, planted) with 5.6 million clauses evaluated on ten total orders in one pass; the state-leak adversary (memoised graph factories) before each case.",
+    text="Exploration: ordering principles (5 variants x plant) for N<=5 and on every graph with <= 4 vertices, pebbling on every DAG with <= 5 vertices, stone / sparse stone formulas, CPLS, Pitfall under several RNG states, Ramsey numbers, van der Waerden (2-3 colours, lengths 1..4), Pythagorean triples: exact unsatisfiability or model-set equality with enumerated orders/colourings; clauses as sets of named literals equal to a reference axiom generator, also at large sizes (op 12, pyramids, cpls 4 4 4, ptn 200).  Also: OrderingPrinciple(257, planted) with 5.6 million clauses evaluated on ten total orders in one pass; the state-leak adversary (memoised graph factories) before each case.  Graph / DAG / bipartite arguments also as user-subclass objects with computed edges.",
     note="Reference axiom generators are re-statements of the docstrings, validated semantically only under the cap.  Pitfall: hard part, gadget locality, easy part and unsatisfiability only (pipe/tail gadgets have no independent specification offline).",
     design="5/C03"),
  "C04": dict(
     technique="runtime monitoring: every builder call executed on a fresh formula, model set by truth table vs. the stated arithmetic/functional condition evaluated per assignment",
-    text="Exploration: all literal lists up to length 5 (quick) / 7 (thorough) with every polarity pattern, container type, operator and constant -2..n+2 are executed for CNF and OPB parents and decided over all 2^n assignments; mappings up to 3x3 with every sparse domain up to 6 possible pairs, binary mappings up to 3 -> 11; normalize_opb on 20k/200k seeded constraints.  Held means: no executed call disagreed with the arithmetic condition.  Also: before force_* the caller edits every list the binary mapping hands out (forbid(i,j), f(i,None)).",
+    text="Exploration: all literal lists up to length 5 (quick) / 7 (thorough) with every polarity pattern, container type, operator and constant -2..n+2 are executed for CNF and OPB parents and decided over all 2^n assignments; mappings up to 3x3 with every sparse domain up to 6 possible pairs, binary mappings up to 3 -> 11; normalize_opb on 20k/200k seeded constraints.  Held means: no executed call disagreed with the arithmetic condition.  Also: before force_* the caller edits every list the binary mapping hands out (forbid(i,j), f(i,None)).  Builders also run on deep copies and pickle round trips of a formula (nothing may land in the original); sparse mapping domains also as user-subclass bipartite graphs, one of them listing neighbours in its own order.",
     note="Trusts vmon/tt.py (self-checked against a naive evaluator on every start) and, for mappings, the group's index->variable call (C11).  Says nothing about lengths beyond the enumerated bound.",
     design="5/C04"),
  "C05": dict(
     technique="runtime monitoring: gadget functions written on truth-table masks give each original variable a derived table; F over derived tables vs exact model set of the transformed formula",
-    text="Exploration: every CNF with <= 2 variables (+ unused third) and <= 2 clauses of width <= 2 and seeded CNFs up to 4 variables x every transformation (xor, or, maj, eq, neq, one, exact/atleast/atmost/anybut with every K in -1..N+1, ite, lift, flip) under 16/20 new variables; xor/maj compression with every graph up to 8 possible edges and seeded larger; library calls and the '-T' command-line spelling; variable counts against the documented k*n, 3n, 2k*n, |R|, n.  Also: gadgets with 12-20 inputs on unit-clause formulas (sampled, clauses grouped by variable set); compression graphs given as cnfgen graph with edges added twice, networkx Graph, networkx MultiGraph and dot file listing edges twice.",
+    text="Exploration: every CNF with <= 2 variables (+ unused third) and <= 2 clauses of width <= 2 and seeded CNFs up to 4 variables x every transformation (xor, or, maj, eq, neq, one, exact/atleast/atmost/anybut with every K in -1..N+1, ite, lift, flip) under 16/20 new variables; xor/maj compression with every graph up to 8 possible edges and seeded larger; library calls and the '-T' command-line spelling; variable counts against the documented k*n, 3n, 2k*n, |R|, n.  Also: gadgets with 12-20 inputs on unit-clause formulas (sampled, clauses grouped by variable set); compression graphs given as cnfgen graph with edges added twice, networkx Graph, networkx MultiGraph and dot file listing edges twice.  Compression graphs also as user-subclass objects; t2(T) judged against T after the owner edited F and T = t1(F).",
     note="Trusts vmon/tt.py and the gadget definitions in C05.py (majority = at least half, lifting = exactly one selector and the selected copy).",
     design="5/C05"),
  "C06": dict(
     technique="runtime monitoring: strict line-classifying reference DIMACS reader; every writer route read back through every reader route; mutated / grammar-generated / junk texts classed MUST-REJECT / determined / unknown",
-    text="Exploration: hand-built formulas (0..40 variables, empty formula, empty clauses, unused variables, hostile header values and names incl. LF/CR/CRLF), 61 family command lines and transformation chains, header x varnames combinations, all write routes (to_dimacs, to_file to StringIO/path/handle/stdout, cnfgen -q/-v/--varnames/-o, kthlist2pebbling) and read routes (from_file on StringIO/path/handle/stdin, cnfgen dimacs, cnfshuffle).  Output lines must be comment / the problem line with true counts / the next clause; ~20k (quick) texts from 45 mutation kinds: only ValueError may be raised, a must-reject text is never accepted, an accepted text equals its reference reading.  Also: export histories whose edits are calls of every linear / cardinality / parity builder, including trivially true ones that only raise the variable count.",
+    text="Exploration: hand-built formulas (0..40 variables, empty formula, empty clauses, unused variables, hostile header values and names incl. LF/CR/CRLF), 61 family command lines and transformation chains, header x varnames combinations, all write routes (to_dimacs, to_file to StringIO/path/handle/stdout, cnfgen -q/-v/--varnames/-o, kthlist2pebbling) and read routes (from_file on StringIO/path/handle/stdin, cnfgen dimacs, cnfshuffle).  Output lines must be comment / the problem line with true counts / the next clause; ~20k (quick) texts from 45 mutation kinds: only ValueError may be raised, a must-reject text is never accepted, an accepted text equals its reference reading.  Also: export histories whose edits are calls of every linear / cardinality / parity builder, including trivially true ones that only raise the variable count.  Valid files read by name under 25 file names (compression suffixes, no extension, other formats' extensions); exports of user-subclass formulas that present other rows than their inherited table holds.",
     note="Trusts vmon/refmodels/c06_dimacs.py (self-checked on 30 fixed texts incl. the doctest examples).  Texts the writer would not produce may be refused; only their reading, if accepted, is judged.",
     design="5/C06"),
  "C07": dict(
     technique="runtime monitoring: the same (argv, seed) in fresh processes that differ in PYTHONHASHSEED and working directory, byte comparison of stdout and saved files; in-process RNG event trace checked against 'no draw before seed(s)'",
-    text="Exploration: ~690 command lines covering every source of randomness (random families, random graph arguments and modifiers, save, shuffle / compression transformations, cnfgen, pbgen, cnfshuffle, quiet and verbose) x seeds {0, 1, 42, -7, 2^40}: quick runs a rotating quarter in 3 fresh processes each (hash seeds 0/1/random; cwd /repo, /, a fresh directory outside any git tree) and all of them twice in-process under different ambient RNG states with the RNG tap; thorough runs everything in 4 processes per seed.  Library samplers called twice per seed.  Any 0x... address in the output is flagged.  Also: bipartite graph files without (or with partial) side attributes, run under ten hash seeds: accepted or refused, but identically.",
+    text="Exploration: ~690 command lines covering every source of randomness (random families, random graph arguments and modifiers, save, shuffle / compression transformations, cnfgen, pbgen, cnfshuffle, quiet and verbose) x seeds {0, 1, 42, -7, 2^40}: quick runs a rotating quarter in 3 fresh processes each (hash seeds 0/1/random; cwd /repo, /, a fresh directory outside any git tree) and all of them twice in-process under different ambient RNG states with the RNG tap; thorough runs everything in 4 processes per seed.  Library samplers called twice per seed.  Any 0x... address in the output is flagged.  Also: bipartite graph files without (or with partial) side attributes, run under ten hash seeds: accepted or refused, but identically.  Some groups also run under two pinned wall clocks (31 Dec / 1 Jan); input files with LaTeX-special characters in their names, rendered in every output format.",
     note="Hash seeds, directories and address layouts are sampled.  stderr is not compared.  The RNG tap swaps the class of random._inst (verified not to change the stream).",
     design="5/C07"),
  "C08": dict(
     technique="runtime monitoring: the same argv through cnfgen and pbgen in-process with equalised RNG state; names, counts and exact model sets (clause evaluator vs bit-sliced adder) compared; sampled assignments beyond the cap",
-    text="Exploration: every formula sub-command of the shared corpus (all option combinations, deterministic and random graph constructions, several RNG seeds for random ones) built by both tools; number of variables, name lists and model sets must coincide; 46 realistic-size command lines compared on sampled assignments and one-flip neighbours of found models.  Also: the printed DIMACS / OPB texts of both programs read back by the reference readers and compared on sampled assignments, for the small corpus and for formulas with 2^8..2^17 (and 3*2^k) constraints.",
+    text="Exploration: every formula sub-command of the shared corpus (all option combinations, deterministic and random graph constructions, several RNG seeds for random ones) built by both tools; number of variables, name lists and model sets must coincide; 46 realistic-size command lines compared on sampled assignments and one-flip neighbours of found models.  Also: the printed DIMACS / OPB texts of both programs read back by the reference readers and compared on sampled assignments, for the small corpus and for formulas with 2^8..2^17 (and 3*2^k) constraints.  Printed texts also compared with their headers on, for input files whose names contain every kind of line break.",
     note="Trusts vmon/tt.py.  Equal RNG state before both runs is what makes random families comparable.  Whether pbgen returns an OPB object at all is C17's question, not this one's.",
     design="5/C08"),
  "C09": dict(
     technique="runtime monitoring with a guarded certificate hook: Shuffle's attached witness (flips, permutation, clause map) is validated and the output reconstructed from it; hook-independent invariants and exhaustive renaming search for N <= 5",
-    text="Exploration: CNFs from 0 to 300 variables / 1000 clauses, all 27 fixed/shuffle/explicit argument combinations (lists, tuples, ranges), invalid explicit arguments (must raise ValueError), seeded and adversarial RNG, cnfshuffle with all 8 switch combinations (object and text path) and '-T shuffle' through cnfgen.  Output == input renamed by the reported witness position by position; explicit/fixed arguments applied exactly; counts, width multiset and model count preserved; for N <= 5 all N!*2^N signed renamings searched.  Also: descending ranges as explicit permutations; keywords 'fixed'/'shuffle' computed at run time (equal, not identical, strings).",
+    text="Exploration: CNFs from 0 to 300 variables / 1000 clauses, all 27 fixed/shuffle/explicit argument combinations (lists, tuples, ranges), invalid explicit arguments (must raise ValueError), seeded and adversarial RNG, cnfshuffle with all 8 switch combinations (object and text path) and '-T shuffle' through cnfgen.  Output == input renamed by the reported witness position by position; explicit/fixed arguments applied exactly; counts, width multiset and model count preserved; for N <= 5 all N!*2^N signed renamings searched.  Also: descending ranges as explicit permutations; keywords 'fixed'/'shuffle' computed at run time (equal, not identical, strings).  Inputs also as user-subclass formulas presenting other clauses than their table holds; argument validation repeated under python -O / -OO.",
     note="Hook CNFGEN_VERIF=1 in cnfgen/transformations/shuffle.py (add-only).  Literal order inside a clause is not judged.",
     design="5/C09"),
  "C10": dict(
     technique="runtime monitoring: hook wrappers on clause/constraint insertion, group creation and variable-count updates armed around every monitored entry point; final-state scan; documented closed-form counts",
-    text="Exploration: 47 library entries at realistic sizes under CNF and OPB classes, transformation chains of length 0-3 (sized so that substitution blow-up stays bounded), ~600 command lines (realistic and small corpora, cnfgen with -T chains and pbgen), 3200 random interleavings of group creation / checked clause insertion / variable-count raises per run.  Observed: every inserted clause's variables, every identifier a new group receives (must not be among those already mentioned), monotonic declared count; returned formulas scanned literal by literal; declared count compared with the documented closed form.  Thorough also runs the repository's own tests with the hooks armed.  Also: one Graph object used by several groups / family calls with edits in between (one variable per current edge), label listings and transformed copies taken in the middle of a history.",
+    text="Exploration: 47 library entries at realistic sizes under CNF and OPB classes, transformation chains of length 0-3 (sized so that substitution blow-up stays bounded), ~600 command lines (realistic and small corpora, cnfgen with -T chains and pbgen), 3200 random interleavings of group creation / checked clause insertion / variable-count raises per run.  Observed: every inserted clause's variables, every identifier a new group receives (must not be among those already mentioned), monotonic declared count; returned formulas scanned literal by literal; declared count compared with the documented closed form.  Thorough also runs the repository's own tests with the hooks armed.  Also: one Graph object used by several groups / family calls with edits in between (one variable per current edge), label listings and transformed copies taken in the middle of a history.  Every family also built in a formula class that owns three variables beforehand and compared with the plain formula moved up; interleaving histories continue on deep copies / pickle round trips.",
     note="Hooks are installed from outside by rebinding class attributes (no repository edit).  Clauses inserted by *user* code with check=False are outside the statement.",
     design="5/C10"),
  "C11": dict(
     technique="runtime monitoring: histories of group creation / anonymous variables against a shadow allocation model; closed-form counts, index<->identifier inversion, wildcard patterns, out-of-domain probes, name alignment incl. 'c varname' lines",
-    text="Exploration: all histories of length <= 2 over a 56-operation alphabet per class (CNF, OPB, bare VariablesManager), 15k (quick) / 225k (thorough) sampled longer histories with random shapes (zero ranges, empty graphs, k>n, loops, isolated vertices), large shapes after 50-400 anonymous variables, 22 cnfgen --varnames command lines.  Per group: contiguous fresh range, indices in identifier order, to_index(+-id) inverts, every wildcard subset equals the filter of the enumeration, out-of-domain indices/literals rejected; names judged after every operation.  Also: one Graph object reused for several groups after moving / removing / adding an edge; lazily sized blocks and binary mappings with 2^40..2^62 variables probed by closed form, including identifiers above 2^53.",
+    text="Exploration: all histories of length <= 2 over a 56-operation alphabet per class (CNF, OPB, bare VariablesManager), 15k (quick) / 225k (thorough) sampled longer histories with random shapes (zero ranges, empty graphs, k>n, loops, isolated vertices), large shapes after 50-400 anonymous variables, 22 cnfgen --varnames command lines.  Per group: contiguous fresh range, indices in identifier order, to_index(+-id) inverts, every wildcard subset equals the filter of the enumeration, out-of-domain indices/literals rejected; names judged after every operation.  Also: one Graph object reused for several groups after moving / removing / adding an edge; lazily sized blocks and binary mappings with 2^40..2^62 variables probed by closed form, including identifiers above 2^53.  Groups of 2^63 and more variables (refused) inside histories; bipartite groups on user-subclass graphs, also with their own neighbour order.",
     note="Trusts vmon/refmodels/c11_shapes.py (legal index sets and closed forms, cross-checked at start-up).  The label syntax is whatever the group reports.",
     design="5/C11"),
  "C12": dict(
     technique="runtime monitoring: independent OPB reader and LaTeX row parser applied to every rendering path; row-by-row comparison with the in-memory formula",
-    text="Exploration: random CNF/OPB formulas (0..106 rows crossing the 35-row page split up to three pages, coefficients up to 10^30, every operator through normalisation, empty rows, hostile but brace-balanced names), enumerated tiny formulas (empty formula vs empty clause), 72 family command lines with their real names, every rendering path (to_opb, to_latex, to_file by format / extension / file object, cnfgen -of, pbgen, real processes), header and varnames on/off; comment shield with multi-line header values and names.  Also: header values that are lists, tuples, dicts, numbers, bytes and objects whose text spans lines; formulas with 2^8..2^18 rows and their neighbours (block-size arithmetic of buffered writers).",
+    text="Exploration: random CNF/OPB formulas (0..106 rows crossing the 35-row page split up to three pages, coefficients up to 10^30, every operator through normalisation, empty rows, hostile but brace-balanced names), enumerated tiny formulas (empty formula vs empty clause), 72 family command lines with their real names, every rendering path (to_opb, to_latex, to_file by format / extension / file object, cnfgen -of, pbgen, real processes), header and varnames on/off; comment shield with multi-line header values and names.  Also: header values that are lists, tuples, dicts, numbers, bytes and objects whose text spans lines; formulas with 2^8..2^18 rows and their neighbours (block-size arithmetic of buffered writers).  Renderings of user-subclass CNF / OPB formulas and of rows whose (coefficient, literal) pairs are lists.",
     note="Readers in vmon/refmodels/c12_*.py are trusted; LaTeX names are compared modulo brace placement; term order inside a row is not judged.",
     design="5/C12"),
  "C13": dict(
     technique="runtime monitoring: result shape + planted assignments + decoded linear system vs truth table, against a reference enumeration of compatible clauses/parities; bounded RNG adversary forces the dense sampler",
-    text="Exploration: RandomKCNF/RandomKXOR for k in 0..4, n in 0..6, m from 0 to max+2 (every m in thorough), 0..3 planted total assignments, seeded and adversarial randomness (sparse sampler driven to exhaustion so the dense path is observed), plus the randkcnf/randkxor command lines.  Each call is judged for counts, distinctness, width, planted assignments, model set = solutions of the decoded system and 'ValueError exactly when infeasible'.  Also: the exact maximum (accepted) and maximum+1 (refused) for every k at n = 7..18 with zero and one planted total assignment; planted assignments listed in arbitrary literal order.",
+    text="Exploration: RandomKCNF/RandomKXOR for k in 0..4, n in 0..6, m from 0 to max+2 (every m in thorough), 0..3 planted total assignments, seeded and adversarial randomness (sparse sampler driven to exhaustion so the dense path is observed), plus the randkcnf/randkxor command lines.  Each call is judged for counts, distinctness, width, planted assignments, model set = solutions of the decoded system and 'ValueError exactly when infeasible'.  Also: the exact maximum (accepted) and maximum+1 (refused) for every k at n = 7..18 with zero and one planted total assignment; planted assignments listed in arbitrary literal order.  A few clauses / parities out of universes beyond 1e308 (k = n = 1024 ... n = 2^62).",
     note="Trusts the reference enumeration of compatible clauses (itertools) and vmon/tt.py.  Parities with k=0 are judged by clause count only.  Adversarial RNG answers are legal values, i.e. positive-probability outcomes.",
     design="5/C13"),
  "C14": dict(
     technique="runtime monitoring: round trips of enumerated and seeded graphs through every format and channel; reference readers for kthlist/DIMACS/matrix judge mutated and hostile texts; dag gate",
-    text="Exploration: every simple graph and dag with <= 4 vertices, every digraph <= 3 vertices incl. loops, every bipartite graph with L+R <= 4, fixed 10-12 vertex graphs, seeded graphs with 0..15 vertices (half >= 10, isolated vertices, empty sides), in every supported format through StringIO / path / handle / from_file / command-line graph arguments / save; digraphs with back edges read as 'dag' must be refused; ~85 fixed hostile texts plus 1-3 stacked mutations of written files: only ValueError may escape, an accepted result must be the graph the reference derives.  Also: by-name round trips of graphs with non-ASCII names in child interpreters whose default text encoding is ASCII / not UTF-8.",
+    text="Exploration: every simple graph and dag with <= 4 vertices, every digraph <= 3 vertices incl. loops, every bipartite graph with L+R <= 4, fixed 10-12 vertex graphs, seeded graphs with 0..15 vertices (half >= 10, isolated vertices, empty sides), in every supported format through StringIO / path / handle / from_file / command-line graph arguments / save; digraphs with back edges read as 'dag' must be refused; ~85 fixed hostile texts plus 1-3 stacked mutations of written files: only ValueError may escape, an accepted result must be the graph the reference derives.  Also: by-name round trips of graphs with non-ASCII names in child interpreters whose default text encoding is ASCII / not UTF-8.  Graphs built through an insertion batch refused half-way and as user-subclass objects; anonymous, spooled and fdopen'ed streams; graph names with quotes, backslashes and format keywords.",
     note="gml and dot parsing is networkx/pydot code: judged by round trip and exception discipline only.  Trusts vmon/refmodels/c14_readers.py.",
     design="5/C14"),
  "C15": dict(
     technique="runtime monitoring: every construction through make_graph_from_spec with arguments inside/at/outside the range, structural oracles and independent references, stage-by-stage option replay under equal RNG/adversary state, taps that observe rare sampler branches",
-    text="Exploration: all simple/bipartite/dag constructions with enumerated arguments (gnm every m, glrm every m up to L*R+1, gnd/regular/glrd every degree incl. non-divisible, grid/torus 1-3 dimensions, ...), options plantclique/plantbiclique/addedges/splitedges from -1 to one past the maximum alone and combined, save in every format read back by independent strict readers, ~340 in-process and some real-process command lines with the graph decoded from the formula; random constructions under fair seeds and the bounded RNG adversary (retry exhaustion, sparse->dense switches observed by counters).  Verdict per request: promised structure or ValueError.  Also: graphs read from files named net{v2}, K{}, 100%, 'two words', ... as the base of every modifier; spelling invariance (integers written 07, +7, -0: a request refused in plain spelling is refused in any spelling, accepted ones give the same graph).",
+    text="Exploration: all simple/bipartite/dag constructions with enumerated arguments (gnm every m, glrm every m up to L*R+1, gnd/regular/glrd every degree incl. non-divisible, grid/torus 1-3 dimensions, ...), options plantclique/plantbiclique/addedges/splitedges from -1 to one past the maximum alone and combined, save in every format read back by independent strict readers, ~340 in-process and some real-process command lines with the graph decoded from the formula; random constructions under fair seeds and the bounded RNG adversary (retry exhaustion, sparse->dense switches observed by counters).  Verdict per request: promised structure or ValueError.  Also: graphs read from files named net{v2}, K{}, 100%, 'two words', ... as the base of every modifier; spelling invariance (integers written 07, +7, -0: a request refused in plain spelling is refused in any spelling, accepted ones give the same graph).  Every graph read from an oddly named file stored again in every format (also onto the input file itself, in another format) and read back.",
     note="Requests meetable but outside the documented domain (N=0, d=0, ...) are accepted either way.  networkx's own samplers draw from random._inst, which the adversary does not control.",
     design="5/C15"),
  "C16": dict(
     technique="runtime monitoring: history + executable set model compared on every public view after every operation; icontract class invariants on Graph/DirectedGraph/BipartiteGraph",
-    text="Exploration: all operation histories of length <= 2 (quick) / <= 3 (thorough) over small alphabets with out-of-range arguments, plus seeded random histories of up to 60 operations from sizes 0..6, on the four graph classes and named constructions.  After every operation every public view (counts, edge listing, membership, neighbour lists, degrees, is_dag) is compared with a set model; refusals must leave no trace; networkx round trip at the end of every history.",
+    text="Exploration: all operation histories of length <= 2 (quick) / <= 3 (thorough) over small alphabets with out-of-range arguments, plus seeded random histories of up to 60 operations from sizes 0..6, on the four graph classes and named constructions.  After every operation every public view (counts, edge listing, membership, neighbour lists, degrees, is_dag) is compared with a set model; refusals must leave no trace; networkx round trip at the end of every history.  networkx inputs relabelled with floats, fractions and other increasing numbers.",
     note="Trusts networkx for the conversion comparison.  A refused insertion is expected to raise (any exception type).  The icontract invariant records and never raises through the code under test.",
     design="5/C16"),
  "C17": dict(
     technique="runtime monitoring: reference dispatcher (help text -> library call) vs the tools in-process under equal RNG state; graphs taken from 'save'd files through independent readers; random options judged by their promise",
-    text="Exploration: ~900 structured commands covering all 33 formula sub-commands with their option subsets, numeric grids, deterministic and random graph constructions, through cnfgen (formula_class=CNF) and pbgen (formula_class=OPB); -T chains of length 1-3 on deterministic bases (exact under RNG replay); graph files of every type/format given by extension and explicitly; dimacs sub-command; kthlist2pebbling vs 'peb'; -q/-v/--varnames/-o/-of on three tools.  Names equal as lists, clauses/constraints as multisets, formula class as documented.  Also: one file named by two graph arguments with 'save' onto it in between; kthlist2pebbling vs 'cnfgen peb' on 75 kthlist texts with control / separator characters inside lines.",
+    text="Exploration: ~900 structured commands covering all 33 formula sub-commands with their option subsets, numeric grids, deterministic and random graph constructions, through cnfgen (formula_class=CNF) and pbgen (formula_class=OPB); -T chains of length 1-3 on deterministic bases (exact under RNG replay); graph files of every type/format given by extension and explicitly; dimacs sub-command; kthlist2pebbling vs 'peb'; -q/-v/--varnames/-o/-of on three tools.  Names equal as lists, clauses/constraints as multisets, formula class as documented.  Also: one file named by two graph arguments with 'save' onto it in between; kthlist2pebbling vs 'cnfgen peb' on 75 kthlist texts with control / separator characters inside lines.  Graph files with 0 and 1 vertices as first / second graph; output files named opb, tex, out.opb.bak, ... by absolute and relative name.",
     note="Saved files are read with vmon/refmodels/c15_ref.py.  Random ingredients (php M N D, subsetcard N d, op N d, tseitin N d / random charges, --sparse, --plant) are reconstructed from the formula and judged by what the option promises.",
     design="5/C17"),
  "C18": dict(
     technique="runtime monitoring: grammar-generated and k-edit-mutated command lines through the real main() of the four tools in-process, with taps on the parse phase and the escaping exception; outcome classifier backed by strict DIMACS/OPB/LaTeX readers; violations re-confirmed in real processes",
-    text="Exploration: ~7.5k (quick) / ~75k (thorough) command lines per run: the live argparse tables (33 formula + 18 transformation sub-commands) instantiated with boundary pools (-1, 0, 1, 2, 3, 12, 1.5, x, empty string, 30-digit numbers), mutilated graph specifications, every scratch-file kind x slot (missing, directory, empty, binary, truncated, wrong format), -o into a missing directory, every help switch in every position, missing/surplus arguments, unknown options, broken -T chains, 1-3-edit mutants of valid command lines, cnfshuffle / kthlist2pebbling with hostile stdin and -i/-o.  Each run is classified SUCCESS (strict reader accepts the output, counts match) / HELP / CLI-ERROR (non-zero exit, no formula line anywhere, every stderr line behind the comment marker of the phase) / violation.  Also: /dev/stdin, /dev/fd/0 and a named pipe as the input file of real processes; oddly named ({}, %, blank) graph files followed by modifiers.",
+    text="Exploration: ~7.5k (quick) / ~75k (thorough) command lines per run: the live argparse tables (33 formula + 18 transformation sub-commands) instantiated with boundary pools (-1, 0, 1, 2, 3, 12, 1.5, x, empty string, 30-digit numbers), mutilated graph specifications, every scratch-file kind x slot (missing, directory, empty, binary, truncated, wrong format), -o into a missing directory, every help switch in every position, missing/surplus arguments, unknown options, broken -T chains, 1-3-edit mutants of valid command lines, cnfshuffle / kthlist2pebbling with hostile stdin and -i/-o.  Each run is classified SUCCESS (strict reader accepts the output, counts match) / HELP / CLI-ERROR (non-zero exit, no formula line anywhere, every stderr line behind the comment marker of the phase) / violation.  Also: /dev/stdin, /dev/fd/0 and a named pipe as the input file of real processes; oddly named ({}, %, blank) graph files followed by modifiers.  Real processes started with file descriptor 0 closed, and with a terminal as <stdout> for the help texts that go through $PAGER.",
     note="A violation is reported only after a real process reproduced its outcome class (a disagreement indicts the harness: inconclusive).  Commands that trip the CPU watchdog or the address-space limit are counted, not judged.  For parse-phase failures the tool's default marker is accepted (DESIGN 4.7).",
     design="5/C18"),
  "C19": dict(
     technique="runtime monitoring: icontract snapshot/ensure contracts on every monitored call (arguments deep-compared before/after), aliasing probes on results, header provenance checks",
-    text="Exploration: 17 transformations (incl. Shuffle with explicit lists, compression with a graph) on 7 base formulas, all single steps and sampled chains up to length 4; every graph-taking family with cnfgen and networkx graphs under both classes; list-taking APIs (charges, shift patterns, planted assignments, builders incl. '!=', Shuffle arguments) and refused calls (arguments must be intact after the exception too).  Result != input object, input state unchanged, mutation of the result does not show in the input, header keeps description and entries and gains 'transformation 1..t' in order.  Also: intermediate formulas annotated by their owner between two steps of a chain.",
+    text="Exploration: 17 transformations (incl. Shuffle with explicit lists, compression with a graph) on 7 base formulas, all single steps and sampled chains up to length 4; every graph-taking family with cnfgen and networkx graphs under both classes; list-taking APIs (charges, shift patterns, planted assignments, builders incl. '!=', Shuffle arguments) and refused calls (arguments must be intact after the exception too).  Result != input object, input state unchanged, mutation of the result does not show in the input, header keeps description and entries and gains 'transformation 1..t' in order.  Also: intermediate formulas annotated by their owner between two steps of a chain.  Builders called with IntEnum / bool / large-int literals (identity and type of each element are snapshotted), on a formula subclass with a clause budget that refuses half-way, and with None among the literals.",
     note="'Keeps the original description' is read as contains.  Graph modifiers documented to work in place are not judged.  icontract does not evaluate postconditions after a raise: those calls are compared by the harness.",
     design="5/C19"),
  "C20": dict(
